@@ -7,6 +7,7 @@ pub mod mem;
 pub mod tear;
 pub mod stream;
 pub mod io;
+pub mod gm;
 
 pub struct RunInfo {
     /// non-trivial by the scenario's stated rule
@@ -52,6 +53,8 @@ pub fn all_scenarios() -> Vec<&'static dyn Scenario> {
     v.push(&stream::STREAM);
     v.push(&io::IOMEM);
     v.push(&io::IOFD);
+    v.push(&gm::GM);
+    v.push(&gm::DIRTY_GM);
     v
 }
 
@@ -128,6 +131,31 @@ pub fn checks() -> Vec<Check> {
         stub: vec!["injected read(2)/write(2) results at the H4 seam", "Stdout: an emulated sink (nothing is written to the real fd 1)", "TcpStream: not run (no loopback networking is assumed in the sandbox); it shares the raw-fd code path with UnixStream"],
         needs_seam_events: true,
     });
+    v.push(Check {
+        prop: "C03",
+        parts: vec![Part { scen: &gm::GM, xen: false, quick: 100_000, thorough: 4_000_000 }],
+        rule: "runs are seeded histories of up to 14 operations (buffer / slice / object / atomic / stream accesses at guest-memory level, accesses through get_slice + derivation and through find_region) by 1-3 actors switched between operations on a layout of 1-4 regions (anonymous or memfd-backed; touching, 1-byte holes, huge holes, at 0, ending at the top of the address space); after every step all regions are re-read through host pointers and backing files and compared with a flat sparse byte-array model; distinct = distinct event-log hash; non-trivial = at least one operation succeeded and one was rejected or cut off",
+        assumptions: COMMON_ASSUMPTIONS.to_vec(),
+        real: vec!["vm_memory GuestMemory::try_access and Bytes<GuestAddress>, GuestRegionMmap, GuestMemoryMmap, MmapRegion (compiled from /repo working tree)", "kernel mmap / memfd / pread"],
+        stub: vec!["actor interleaving at operation granularity (seeded)"],
+        needs_seam_events: true,
+    });
+    for (prop, what) in [("C05", "every byte whose value changed is reported dirty by the owning region's bitmap at that region's own offset (diff-driven); a failed descriptor read leaves its whole target dirty"), ("C16", "the bitmap after an operation is exactly the bitmap before it plus the pages overlapping the bytes written (reads, loads, queries, derivations, stream writes out of memory and rejected requests mark nothing; only a failed descriptor read may mark its whole target)")] {
+        v.push(Check {
+            prop,
+            parts: vec![Part { scen: &gm::DIRTY_GM, xen: false, quick: 100_000, thorough: 4_000_000 }],
+            rule: if prop == "C05" {
+                "runs are seeded histories of up to 10 write-type and read-type operations at guest-memory, region and derived-slice level (written data is the complement of the current contents), descriptor reads with injected syscall results, scripted readers that fail part-way, interleaved with bitmap resets/harvests, on 1-3 regions with real AtomicBitmaps (plain or Option) of page sizes 1, 2, 3, 16, 64, 4096 or larger than the region; oracle: every byte whose value changed is dirty in the owning region's bitmap, and a failed descriptor read leaves its whole target dirty; distinct = distinct event-log hash; non-trivial = at least one operation succeeded and one was rejected or cut off"
+            } else {
+                "same runs as C05 with the precision oracle: the full bitmap after each operation equals the bitmap before it plus exactly the pages overlapping the written bytes (reads, loads, queries, derivations, stream writes out of memory and rejected requests mark nothing; only a failed descriptor read may mark its whole target; partially completed failing writes are left to C05); distinct = distinct event-log hash; non-trivial = at least one operation succeeded and one was rejected or cut off"
+            },
+            assumptions: COMMON_ASSUMPTIONS.to_vec(),
+            real: vec!["vm_memory dirty tracking in volatile_memory / io / mmap, AtomicBitmap, RefSlice, Option<B> (compiled from /repo working tree)", "kernel mmap / memfd / read(2) when the injector passes through"],
+            stub: vec!["injected read(2) results at the H4 seam", "scripted readers", "actor interleaving at operation granularity (seeded)"],
+            needs_seam_events: true,
+        });
+        let _ = what;
+    }
     v
 }
 
